@@ -1048,7 +1048,7 @@ def run_bigstore(case):
         # of one of its first inequalities (new root over nodes with the smallest ids), a fresh one, that first inequality
         # again (no new node), a fresh one.  A second manager spans the chunk: it posts another early inequality before
         # the growth and a fresh one after the landing
-        nxt = next((m for m in sorted(BIG_MARKS) if m - 2 > len(pb.memory)), None)
+        nxt = next((m for m in sorted(BIG_MARKS) if m - 2 > len(pb.memory) and m not in case.get("skip", [])), None)
         land = span = None
         if nxt is not None and nxt - len(pb.memory) <= chunk + BIG_LAND_MARGIN and len(landings) + 1 < len(early) // 2:
             land = nxt - [1, 0, 2][len(landings) % 3]
@@ -1396,7 +1396,13 @@ def run(ctx, out, replay=None):
                 "first fills ids 2..2*chunk, then throw-away managers grow the store chunk by chunk (1500-3000 nodes; "
                 "many small inequalities over fresh variables - the cheapest way, 60k nodes/s); after every chunk the "
                 "long-lived manager posts another non-clause inequality, past every power of two / of ten and every "
-                "16th chunk a fresh manager posts one; every posted inequality is checked by enumeration")
+                "16th chunk a fresh manager posts one; every posted inequality is checked by enumeration; "
+                "JUST BELOW every mark T (2^k, 10^k; two more cases with chunks of 300 nodes for 10^3, 2^10, 2^12) the "
+                "growth stops at EXACTLY T-1 / T / T-2 entries and the long-lived manager posts four inequalities in a "
+                "row, so the store passes T between two of its own posts: one of its first inequalities plus a heavier "
+                "literal (new root over the nodes with the smallest ids), a fresh one, that first inequality again (no "
+                "new node), a fresh one; a second manager spans the chunk (an early inequality before the growth, a "
+                "fresh one after the landing)")
     cases = []
     if replay and "case" in replay:
         cases.append(fr.unjson(replay["case"]))
@@ -1415,7 +1421,9 @@ def run(ctx, out, replay=None):
          (1 << 21) + 8192]
     cases += [gen_big_case(brng, t) for t in bt]
     # small chunks (first block of 600 nodes): exact landings just below 10^3, 2^10, 2^12 as well
-    cases += [gen_big_case(brng, t, chunk=300) for t in ([6000] if ctx.quick() else [6000, 6000, 12000])]
+    # (10^3 and 2^10 are too close for both to be landed on in one run: every other case skips 10^3)
+    cases += [dict(gen_big_case(brng, t, chunk=300), skip=[1000] if i % 2 else [])
+              for i, t in enumerate([6000, 6000] if ctx.quick() else [6000, 6000, 12000, 12000])]
     stats = {"refused_posts": 0, "cases_building_nodes": 0, "cases_reusing_earlier_nodes": 0, "unsat_instances": 0,
              "max_initial_memory": 0, "max_new_nodes": 0, "nodes_codified": 0,
              "ineq_via_diagram": 0, "ineq_as_clause_or_tautology": 0}
@@ -1427,6 +1435,8 @@ def run(ctx, out, replay=None):
             stats["bigstore_max_nodes"] = max(stats.get("bigstore_max_nodes", 0), obs["peak"])
             stats["bigstore_checked_posts"] = stats.get("bigstore_checked_posts", 0) + len(obs["checks"])
             stats["bigstore_store_shrank"] = stats.get("bigstore_store_shrank", 0) + obs["store_shrank"]
+            stats["bigstore_landings"] = stats.get("bigstore_landings", []) + \
+                [[l["mark"], l["sizes"][0], l["sizes"][-1]] for l in obs.get("landings", []) if l["landed"]]
             return obs
         stats["refused_posts"] += obs["status"].count("R")
         stats["cases_building_nodes"] += 1 if obs["newmem"] else 0
